@@ -627,3 +627,34 @@ for _nw, _we in ((1, True),):
     _site_contract(_RF + '_process_case', {'self': make_reindent, 'tlist': make_case_shape(_nw, _we)}, case=_case,
                    serves=('C06', 'C07'))
     CASE_LAYOUT_CASES.append((_RF + '_process_case', _case))
+
+
+# --------------------------------------------------------------------------------- strip_comments on an explicit shape (C08)
+
+def make_comment_shape(ex, st):
+    """Statement  A <comment> B ws <hint> ws <comment>   (comments as Comment groups, the hint as a leaf)"""
+    from contracts.sql import _mk_argument, _mk_leaf, _mk_node, _ws1
+    T, sql = ex.W.T, ex.W.sql
+    a, b = _mk_argument(ex, st, 'itemA'), _mk_argument(ex, st, 'itemB')
+    # A and B are ordinary tokens: not parentheses (the routine treats a neighbouring parenthesis specially)
+    for x in (a, b):
+        st.assume(z3.And(st.objs[x.oid]['value'].z != z3.StringVal('('), st.objs[x.oid]['value'].z != z3.StringVal(')')))
+    c1t = _mk_leaf(ex, st, None, 'c1text', (T.Comment.Multiline, T.Comment.Single))
+    c2t = _mk_leaf(ex, st, None, 'c2text', (T.Comment.Multiline, T.Comment.Single))
+    hint = _mk_leaf(ex, st, None, 'hint', (T.Comment.Multiline.Hint, T.Comment.Single.Hint))
+    c1 = lambda g: _mk_node(ex, st, sql.Comment, 'c1', [c1t], g)   # noqa: E731
+    c2 = lambda g: _mk_node(ex, st, sql.Comment, 'c2', [c2t], g)   # noqa: E731
+    w1, w2 = _ws1(ex, st, 'ws1'), _ws1(ex, st, 'ws2')
+    st.ghost.update({'A': a, 'B': b, 'HINT': hint, 'W1': w1, 'W2': w2})
+    return _mk_node(ex, st, sql.Statement, 'tlist', [a, c1, b, w1, hint, w2, c2])
+
+
+_site_contract('sqlparse.filters.others.StripCommentsFilter._process', {'tlist': make_comment_shape},
+               case='shape: A comment B ws hint ws comment', sites=COMMENT_SITES, serves=('C08',), raises=[])
+REG.cases[('sqlparse.filters.others.StripCommentsFilter._process', 'shape: A comment B ws hint ws comment')].ensures = [
+    # C08: every comment except the optimizer hint is gone, nothing else is: A, B, the hint and the original whitespace are
+    # the same objects in the same order; where a comment separated two tokens a whitespace token stands instead
+    'len(tlist.tokens) == 7', 'tlist.tokens[0] is A', 'tlist.tokens[1].is_whitespace == True', 'tlist.tokens[2] is B',
+    'tlist.tokens[3] is W1', 'tlist.tokens[4] is HINT', 'tlist.tokens[5] is W2', 'tlist.tokens[6].is_whitespace == True',
+    'A.value == old(A.value)', 'B.value == old(B.value)', 'HINT.value == old(HINT.value)']
+COMMENT_SHAPE_CASES = [('sqlparse.filters.others.StripCommentsFilter._process', 'shape: A comment B ws hint ws comment')]
